@@ -230,6 +230,30 @@ func RunC03(c *core.Ctx) {
 	}
 	wg.Wait()
 	c.Add("expiry_while_in_use_histories", 3)
+	// other spellings of an issued key: the key text is 32 characters of the URL-safe alphabet; the same bits written with
+	// the standard alphabet's '+' and '/' (or padded, or in another case) are not the key.  A banned key in particular
+	// stays banned however it is spelled (the ban is looked up by the presented string).
+	var respelled int64
+	for v := 1; v <= 3; v++ {
+		b := brokers[v]
+		for _, x := range keep[v] {
+			if !x.want || !strings.ContainsAny(x.ks, "-_") || respelled > 600 {
+				continue
+			}
+			alt := strings.NewReplacer("-", "+", "_", "/").Replace(x.ks)
+			ban := event.Ban(x.ks)
+			b.Svc.VerifCluster().Notify(&ban, true)
+			_, _, banned := b.Svc.Authorize(security.ParseChannel([]byte(x.ks+"/"+x.ch)), x.perm)
+			_, _, altOK := b.Svc.Authorize(security.ParseChannel([]byte(alt+"/"+x.ch)), x.perm)
+			b.Svc.VerifCluster().Notify(&ban, false)
+			respelled++
+			if banned || altOK {
+				replay, _ := json.Marshal(map[string]any{"e": "respelled", "license": v, "key": x.ks, "respelled": alt, "channel": x.ch, "banned_key_accepted": banned, "respelled_accepted": altOK})
+				c.Violation(fmt.Sprintf("license v%d: key %s is banned; presented as issued it is accepted=%v, respelled with the standard base64 alphabet (%s) it is accepted=%v - both must be refused", v, x.ks, banned, alt, altOK), replay)
+			}
+		}
+	}
+	c.Add("respelled_banned_keys", respelled)
 	// concurrent use: the broker authorizes on every connection's goroutine at once, with one cipher / key generator /
 	// contract provider per broker.  The verdict for a (key, channel, operation) does not depend on what other
 	// connections present at the same moment: every verdict of the grid, asked again by 16 goroutines in random order,
